@@ -470,18 +470,27 @@ def _get_Hamiltonian_from_couplings(model, sparse: bool, undo_sort_charge: bool)
         kron = np.kron
         eye_0 = np.eye(1)  # identity on zero sites. starting point for doing kron.
 
+    def get_op(i, opname):
+        op = sites[i].get_op(opname).to_ndarray()
+        if undo_sort_charge:
+            perm = inverse_permutation(sites[i].perm)
+            op = op[np.ix_(perm, perm)]
+        return op
+
     for s, terms in zip(term_list.strength, term_list.terms):
         last_site = -1
         t = eye_0
+        # The TermList does not store the operator strings: between the operators of a term we need a
+        # Jordan-Wigner string on the sites which have an odd number of fermionic operators to their left.
+        need_JW_string = False
         for op, i in terms:
-            sites_since_last_op = range(last_site + 1, i)
-            if len(sites_since_last_op) > 0:
-                t = kron(t, np.eye(np.prod([dims[n] for n in sites_since_last_op])))
-            op = sites[i].get_op(op).to_ndarray()
-            if undo_sort_charge:
-                perm = inverse_permutation(sites[i].perm)
-                op = op[np.ix_(perm, perm)]
-            t = kron(t, op)
+            for n in range(last_site + 1, i):
+                t = kron(t, get_op(n, 'JW') if need_JW_string else np.eye(dims[n]))
+            JW = sites[i].get_op('JW').to_ndarray()
+            op_i = sites[i].get_op(op).to_ndarray()
+            if np.any(op_i) and np.allclose(np.dot(JW, np.dot(op_i, JW)), -op_i):  # op anti-commutes with JW
+                need_JW_string = not need_JW_string
+            t = kron(t, get_op(i, op))
             last_site = i
         sites_since_last_op = range(last_site + 1, len(sites))
         if len(sites_since_last_op) > 0:
